@@ -5,7 +5,7 @@
 (* writer and reader made of it; the event is judged by the round-trip and  *)
 (* accept/reject predicates of the Codec_* modules.                         *)
 (***************************************************************************)
-EXTENDS Codec_Http, Codec_Multipart, Codec_Percent, Codec_Json, Json, IOUtils, TLC
+EXTENDS Codec_Http, Codec_Multipart, Codec_Percent, Codec_Json, Endpoints, Json, IOUtils, TLC
 
 Rec == ndJsonDeserialize(IOEnv.TRACE)
 VARIABLES l, nfail
@@ -25,6 +25,7 @@ Violations(e) ==
       [] e.op = "multipart_corrupt" -> MultipartRejectViolations(e.cls, e.obs)
       [] e.op = "boundary_param" -> BoundaryParamViolations(e.value, e.obs)
       [] e.op = "map"            -> MapViolations(e.leg, e.value, e.obs)
+      [] e.op = "endpoint"       -> IF e.obs.outcome = "ok" THEN EndpointNotes(e.req, e.obs) ELSE {"E.endpoint_" \o e.obs.outcome}
       [] e.op = "json_object"    -> JsonObjectViolations(e)
       [] e.op = "json_array"     -> JsonArrayViolations(e)
       [] e.op = "json_odd"       -> JsonOddViolations(e)
